@@ -107,10 +107,10 @@ pub fn check(s: &'static dyn Proto, c: &Case, st: &mut Stats, _k: &KnownFindings
     let mut pws: Vec<Vec<u8>> = c.pws.iter().map(|b| b.bytes()).collect();
     // pool passwords must be pairwise different
     for i in 0..pws.len() {
-        for j in 0..i {
-            if pws[i] == pws[j] {
-                pws[i].push(i as u8 + 1);
-            }
+        // append until entry i differs from every earlier entry (one pass is not enough: the
+        // altered entry may collide with an entry that was already passed)
+        while (0..i).any(|j| pws[i] == pws[j]) {
+            pws[i].push(i as u8 + 1);
         }
     }
     let t = |i: u64| c.tape.sub(i);
